@@ -190,6 +190,26 @@ func randOpts(r *rng.R, names []string, max int) string {
 	return strings.Join(parts, ",")
 }
 
+// optsOfLen: an option list with exactly n options (n = 0: no ":" part at all)
+func optsOfLen(r *rng.R, n int) string {
+	var parts []string
+	for i := 0; i < n; i++ {
+		p := rng.Pick(r, plugOptNames)
+		switch r.Intn(5) {
+		case 0:
+			p += "="
+		case 1:
+		default:
+			p += "=" + rng.Pick(r, []string{"1", "true", "a/b", "x=y", "v"})
+		}
+		if n > 1 && r.Chance(1, 10) {
+			p = "" // "a,,b": an option with an empty name
+		}
+		parts = append(parts, p)
+	}
+	return strings.Join(parts, ",")
+}
+
 func randLangArg(r *rng.R) string {
 	s := "go"
 	if r.Chance(1, 10) {
@@ -545,6 +565,7 @@ type procSpec struct {
 	LimitMs  int
 	Quiet    bool
 	Echo     bool // also compare the request each plugin received (volume: about 13 kB of case text each)
+	Small    bool // run on the small two-file program instead of the diamond
 }
 
 type procObs struct {
@@ -1083,6 +1104,70 @@ func main() {
 		}
 		outOf := func(id int) string { return filepath.Join(work, fmt.Sprintf("proc%03d", id), "out") }
 		all := specs(outOf, 0)
+
+		// ---- several plugins in ONE invocation: each must receive the pack of exactly its own
+		// options (the request object is shared by the plugin loop of Generate), the same
+		// generator parameters / language / output path / recursive flag / version, the same AST
+		smRoot, _ := os.MkdirTemp(work, "small")
+		sm := prog{smRoot, "svc.thrift", map[string]string{
+			"svc.thrift": "include \"t.thrift\"\nnamespace go demo.small\nstruct Q { 1: t.Id id, 2: optional string s = \"x\" }\nservice Svc { Q get(1: t.Id id) }\n",
+			"t.thrift":   "namespace go demo.small.t\ntypedef i64 Id\n"}}
+		for n, t := range sm.files {
+			os.WriteFile(filepath.Join(sm.root, n), []byte(t), 0o644)
+		}
+		smBase := map[bool]map[string]string{}
+		for _, rec := range []bool{false, true} {
+			od := filepath.Join(baseDir, fmt.Sprintf("small-%v", rec))
+			a := []string{"-g", "go", "-o", od}
+			if rec {
+				a = append(a, "-r")
+			}
+			c := exec.Command(*thriftgo, append(a, sm.main)...)
+			c.Dir = sm.root
+			if outb, err := c.CombinedOutput(); err != nil {
+				fmt.Fprintln(os.Stderr, "baseline run (small) failed:", err, string(outb))
+				os.Exit(1)
+			}
+			smBase[rec] = listFiles(od)
+		}
+		multi := func(label string, lens []int, opts []string, released, compress, recurse bool) procSpec {
+			ps := procSpec{Label: label, LangArg: rng.Pick(r, []string{"go", "go:gen_setter", "go:naming_style=golint,gen_deep_equal"}),
+				Recurse: recurse, Compress: compress, LimitMs: 8000, Echo: true, Small: true}
+			for q, n := range lens {
+				o := optsOfLen(r, n)
+				if opts != nil {
+					o = opts[q]
+				}
+				ps.Plugins = append(ps.Plugins, pluginSpec{Name: fmt.Sprintf("q%d", q), Released: released, Opts: o, Kind: "respond",
+					Stdout: mustMarshal(&plugin.Response{Warnings: []string{fmt.Sprintf("multi-%s-q%d", label, q)}})})
+			}
+			return ps
+		}
+		// corpus: options, none, options (the second plugin must not inherit the first one's)
+		all = append(all, multi("multi-corpus-opts-none-opts", []int{2, 0, 1}, []string{"alpha=1,beta", "", "gamma=3"}, false, false, false))
+		all = append(all, multi("multi-corpus-none-after-opts-compressed", []int{3, 0, 0, 1}, []string{"a=1,b,c=", "", "", "d"}, true, true, true))
+		// every ordered pair of adjacent option-list lengths 0..3 (a de Bruijn sequence cut into
+		// invocations of up to four plugins, overlapping by one)
+		db := []int{0, 0, 1, 0, 2, 0, 3, 1, 1, 2, 1, 3, 2, 2, 3, 3, 0}
+		for k, at := 0, 0; at+1 < len(db); k, at = k+1, at+3 {
+			end := at + 4
+			if end > len(db) {
+				end = len(db)
+			}
+			all = append(all, multi(fmt.Sprintf("multi-lens-%d", k), db[at:end], nil, k%2 == 1, k%2 == 1, k%3 == 0))
+		}
+		nMultiRandom := 0
+		if *tier == "thorough" {
+			nMultiRandom = 40
+		}
+		for k := 0; k < nMultiRandom; k++ {
+			lens := make([]int, 2+r.Intn(3))
+			for i := range lens {
+				lens[i] = r.Intn(4)
+			}
+			rel := r.Bool()
+			all = append(all, multi(fmt.Sprintf("multi-random-%d", k), lens, nil, rel, rel && r.Bool(), r.Bool()))
+		}
 		// thorough: random responses and faults on top
 		for k := 0; k < nProcRandom; k++ {
 			id := len(all)
@@ -1136,7 +1221,11 @@ func main() {
 			if ps.Recurse {
 				base = baselineR
 			}
-			t, d := e.runProc(i, dm.root, dm.main, dm.files, base, ps)
+			pg := dm
+			if ps.Small {
+				pg, base = sm, smBase[ps.Recurse]
+			}
+			t, d := e.runProc(i, pg.root, pg.main, pg.files, base, ps)
 			results[i] = result{t, d}
 		}
 		for i, res := range results {
